@@ -7,6 +7,8 @@ import PV.Generated.TreeLoops
 Reachable = produced from the empty tree by any sequence of calls.  The bounds are in exact integer
 form: AVL `fib (h+2) ≤ n+1` (which is the 1.4405·log2(n+2) bound), red-black `2^bh ≤ n+1 ∧ h ≤ 2·bh`
 (hence `h ≤ 2·log2(n+1)`).  A lookup compares against at most `h` keys.
+The op sequences include inserts whose node allocation fails (`Op.insf`, a step kind of `avlRun` / `rbRun`): such a call
+leaves the tree literally as it was (`failed_insert_is_identity`, C12), so no balance factor or colour is half-updated.
 -/
 namespace PV.Tree
 open Std
@@ -41,6 +43,13 @@ theorem rb_height_log (t : RT κ ν) (hi : t.Inv) : 2 ^ ((t.height + 1) / 2) ≤
 
 theorem lookup_cost (t : BT κ ν) (k : κ) : (t.lookupPath cmp k).length ≤ t.height :=
   BT.lookupPath_le_height t k
+
+/-- non-vacuity for histories with failing inserts: reachable, and balanced -/
+example : ∃ s outs, rbRun (κ := Nat) (ν := Nat) compare (.nil, 0) [.ins 2 20, .insf 1 10, .ins 3 30, .insf 3 31, .ins 4 40, .rem 2] = some (s, outs) ∧ s.1.Inv := by
+  obtain ⟨s, h1, _, h3⟩ := rbRun_refines (cmp := (compare : Nat → Nat → Ordering)) (ν := Nat)
+    [.ins 2 20, .insf 1 10, .ins 3 30, .insf 3 31, .ins 4 40, .rem 2] .nil 0 []
+    (by simp [BT.Ordered, RT.toBT, BT.toList, SM.Sorted]) (by simp [RT.Inv, RT.isBlack, RT.Bal]) rfl rfl
+  exact ⟨s, _, h1, h3⟩
 
 example : (AT.node (.node .nil 1 1 0 .nil) 2 2 1 .nil : AT Nat Nat).Inv := by
   simp [AT.Inv, AT.height, AT.toBT, BT.height]
